@@ -230,6 +230,13 @@ def canonicalise(tree, modname, table=None):
         continue
       used.add(rn)
       safe[cn] = rn
+    # a target that is itself a current name is free only if that name really moves away
+    while True:
+      bad = [cn for cn, rn in safe.items() if rn in cur_names and rn not in safe]
+      if not bad:
+        break
+      for cn in bad:
+        del safe[cn]
     if not safe:
       continue
     params = _params(fn)
